@@ -15,8 +15,14 @@ import traceback
 from typing import Any
 
 
-def _one(job: tuple[str, str, str, str]) -> dict[str, Any]:
-    modname, repo, label, tier = job
+def _shard(it: Any, i: int, n: int) -> Any:
+    for k, x in enumerate(it):
+        if k % n == i:
+            yield x
+
+
+def _one(job: tuple[str, str, str, str, int, int]) -> dict[str, Any]:
+    modname, repo, label, tier, si, sn = job
     try:
         from pybound import rt
         mod = importlib.import_module(modname)
@@ -24,7 +30,9 @@ def _one(job: tuple[str, str, str, str]) -> dict[str, Any]:
         gens = mod.bounded(tier)
         c = prog.contracts[label]
         hook = getattr(mod, 'env_hook', None)
-        r = rt.check_contract(c, prog.macros, gens[label](), env_hook=hook)
+        r = rt.check_contract(
+            c, prog.macros, _shard(gens[label](), si, sn), env_hook=hook,
+        )
         return r
     except Exception:
         return {
@@ -50,12 +58,34 @@ def run(modname: str, repo: str, tier: str, jobs: int = 16,
     labels = list(mod.bounded(tier).keys())
     if only:
         labels = [t for t in labels if any(o in t for o in only)]
-    work = [(modname, repo, t, tier) for t in labels]
+    sn = max(1, min(8, jobs // 2)) if jobs > 1 else 1
+    work = [
+        (modname, repo, t, tier, si, sn) for t in labels for si in range(sn)
+    ]
     if jobs > 1 and len(work) > 1:
         with mp.get_context('fork').Pool(min(jobs, len(work))) as pool:
-            results = pool.map(_one, work, chunksize=1)
+            parts = pool.map(_one, work, chunksize=1)
     else:
-        results = [_one(w) for w in work]
+        parts = [_one(w) for w in work]
+    merged: dict[str, dict[str, Any]] = {}
+    for r in parts:
+        m = merged.setdefault(r['function'], {
+            'function': r['function'], 'evaluated': 0, 'skipped': 0,
+            'nontrivial': 0, 'distinct_behaviours': 0, 'failures': [],
+            'spec_errors': [], 'samples': [], 'wall_s': 0.0,
+        })
+        for k in ('evaluated', 'skipped', 'nontrivial'):
+            m[k] += r.get(k, 0)
+        m['distinct_behaviours'] = max(
+            m['distinct_behaviours'], r.get('distinct_behaviours', 0),
+        )
+        m['failures'] += r.get('failures', [])
+        m['spec_errors'] = sorted(set(m['spec_errors'] + r.get('spec_errors', [])))[:5]
+        m['samples'] = (m['samples'] + r.get('samples', []))[:3]
+        m['wall_s'] = round(max(m['wall_s'], r.get('wall_s', 0)), 3)
+        if r.get('error'):
+            m['error'] = r['error']
+    results = [merged[t] for t in labels if t in merged]
     return {
         'module': modname, 'tier': tier, 'results': results,
         'wall_s': round(time.time() - t0, 3),
